@@ -60,7 +60,7 @@ def unused_observations(prg, inputs, outputs):
     def wrapped(self, p):
         before = list(p)
         try:
-            text = ser.prog(before)
+            text = ser.prog(apart_prog(before))
         except Exception:  # noqa - outside the mirror
             text = None
         out = real(self, p)
@@ -78,6 +78,91 @@ def unused_observations(prg, inputs, outputs):
     finally:
         UnusedTranslator.remove_unused = real
     return obs
+
+
+class _Apart(__import__("clingo").ast.Transformer):
+    """every occurrence of the anonymous variable becomes a variable of its own (`_#k`): that is what `_` means, and the
+    Lean semantics has named variables only"""
+
+    def __init__(self):
+        self.k = 0
+
+    def visit_Variable(self, node):
+        if node.name == "_":
+            self.k += 1
+            return node.update(name=f"_#{self.k}")
+        return node
+
+
+def apart(node, tr=None):
+    return (tr or _Apart())(node)
+
+
+def apart_prog(prg):
+    tr = _Apart()
+    return [tr(s) for s in prg]
+
+
+def projection_observations(prg, inputs):
+    """[(orig rule, aux rule, updated rule, context program) as s-expression texts + the real serialisations] per split"""
+    from ngo.projection import ProjectionTranslator
+    obs = []
+    real = ProjectionTranslator.project_rule
+
+    def wrapped(self, stm):
+        try:
+            before = ser.stm(stm)
+        except Exception:  # noqa
+            before = None
+        out = real(self, stm)
+        if before is not None and len(out) == 2:
+            try:
+                # rename the anonymous variables apart, consistently in the three rules: literal k of the body keeps its
+                # new names wherever the pass put it
+                tr = _Apart()
+                body2 = [tr(l) for l in stm.body]
+                used = set()
+
+                def pick(lit):
+                    for i, l in enumerate(stm.body):
+                        if i not in used and l == lit:
+                            used.add(i)
+                            return body2[i]
+                    raise KeyError("literal of the result is not a literal of the source")
+                new2 = [pick(l) for l in out[0].body]
+                rest2 = [pick(l) for l in out[1].body[:-1]]
+                head2 = tr(stm.head)
+                o2 = stm.update(head=head2, body=body2)
+                a2 = out[0].update(body=new2)
+                u2 = out[1].update(head=head2, body=rest2 + [out[1].body[-1]])
+                obs.append((stm, ser.stm(o2), ser.stm(a2), ser.stm(u2)))
+            except Exception:  # noqa
+                pass
+        return out
+    ProjectionTranslator.project_rule = wrapped
+    try:
+        result = ProjectionTranslator(prg, inputs).execute(prg)
+    except Exception:  # noqa
+        result = None
+    finally:
+        ProjectionTranslator.project_rule = real
+    if result is None:
+        return []
+    ret = []
+    for stm, before, aux, upd in obs:
+        try:
+            ctx = [s for s in prg if s is not stm and str(s) != str(stm)]
+            ret.append((before, aux, upd, ser.prog(ctx)))
+        except Exception:  # noqa
+            pass
+    return ret
+
+
+def ser_try(s):
+    try:
+        return ser.stm(s)
+    except Exception:  # noqa
+        return None
 
 
 def _cmp_vars(lit):
@@ -99,7 +184,7 @@ def symmetry_observations(prg, inputs):
         for s in before:
             if s.ast_type == ASTType.Rule:
                 try:
-                    texts[id(s)] = ser.stm(s)
+                    texts[id(s)] = ser.stm(apart(s))
                 except Exception:  # noqa
                     pass
         after = SymmetryTranslator(prg, inputs).execute(prg)
@@ -142,19 +227,30 @@ def symmetry_observations(prg, inputs):
     return obs, other
 
 
+def leanio_show(x) -> str:
+    """parsed answer back to the text `ser` produces (strings are ('s', text) pairs in leanio's parse)"""
+    if isinstance(x, tuple):
+        return ser.q(x[1])
+    if isinstance(x, list):
+        return "(" + " ".join(leanio_show(y) for y in x) + ")"
+    return str(x)
+
+
 def make_texts(rng, n_gen, corpus_limit=None):
     H = corpus.harvest()
-    pref = [x for x in H if x[0] in ("symmetry", "unused", "regression")]
-    rest = [x for x in H if x[0] not in ("symmetry", "unused", "regression")]
+    pref = [x for x in H if x[0] in ("symmetry", "unused", "regression", "projection")]
+    rest = [x for x in H if x[0] not in ("symmetry", "unused", "regression", "projection")]
     if corpus_limit is not None:
         rest = rng.sample(rest, min(len(rest), corpus_limit))
     texts = [("corpus:" + o, t) for o, t in pref + rest]
     for i in range(n_gen):
         r = rng.random()
-        if r < 0.4:
+        if r < 0.3:
             texts.append(("tgen:symmetry", tgen.gen_symmetry(rng)))
-        elif r < 0.7:
+        elif r < 0.5:
             texts.append(("tgen:unused", tgen.gen_unused(rng)))
+        elif r < 0.75:
+            texts.append(("tgen:projection", tgen.gen_projection(rng)))
         elif r < 0.85:
             texts.append(("mutated", gen.mutate(rng, rng.choice(pref or H)[1])))
         else:
@@ -182,6 +278,9 @@ def run(rng, n_gen, corpus_limit=None) -> dict:
         for ptext, name, ar in unused_observations(_preprocess(_parse(text)), inputs, outputs):
             reqs.append(f'(sem_unused_cond {ptext} {ser.q(name)} {ar})')
             meta.append(("unused", text, f"{name}/{ar}", 1))
+        for before, aux, upd, ctxp in projection_observations(_preprocess(_parse(text)), inputs):
+            reqs.append(f'(sem_split_cond {before} {aux} {upd} {ctxp})')
+            meta.append(("projection", text, (aux, upd), 1))
         sobs, other = symmetry_observations(_preprocess(_parse(text)), inputs)
         hist["symmetry: rules rewritten in another shape (count / aux / several literals)"] += other
         for rtext, x, y, others in sobs:
@@ -209,6 +308,19 @@ def run(rng, n_gen, corpus_limit=None) -> dict:
             hist[f"{kind}: unsupported by the reader"] += 1
             continue
         nontrivial += 1
+        if kind == "projection":
+            a = good[0]
+            same = (leanio_show(a[3]), leanio_show(a[4])) == what
+            flags = [str(a[1]) == "1", str(a[2]) == "1", same]
+            if not same:
+                mismatches.append({"op": "sem_split_cond", "program": text, "impl": str(what)[:400],
+                                   "model": (leanio_show(a[3]) + " " + leanio_show(a[4]))[:400]})
+            if all(flags):
+                hist["projection: side condition of the theorem holds"] += 1
+            else:
+                hist[f"projection: side condition does NOT hold {tuple(int(f) for f in flags)}"] += 1
+                outside.append(text)
+            continue
         flagsets = [[str(x) == "1" for x in a[1:]] for a in good]
         if any(all(f) for f in flagsets):
             hist[f"{kind}: side condition of the theorem holds"] += 1
